@@ -23,6 +23,9 @@ var jcSpecial = []string{
 	"let a=g1(),[b]=g2()", "var a=g1(),[b]=g2(),c=g3()", "for(var a=g1(),[b]=g2();;)break", "var [a]=g1(),b=g2(),{c}=g3()",
 	"g1(),g2();g3()", "switch(g1()){case g2():}", "try{g1()}catch{g2()}finally{g3()}", "l:{g1()}", "do{}while(g1()&&0)", "with(g1()){}", "throw g1()", "x=a?g1():g2()", "if(g1()){}else{g2()}", "if(g1())g2();else{}",
 	"var a=g1();a=g2()", "x=g1();x=g2()", "g1();var a;g2()", "var a=g1(),b;b=g2()", "if(a)g1();g2()", "if(a){g1()}else{g2()}g3()",
+	"{let [a]=g1()}", "{let {a}=g1()}", "{const [a,b]=g1()}", "{class A{static x=g1()}}", "{class A extends g1(){}}", "{class A{[g1()](){}}}", "{let a=g1()}", "{const a=g1(),b=g2()}",
+	"{let a=g1();{let b=g2()}}", "function f(){let [a]=g1()}", "function f(){class A{static x=g1()}}", "for(let [a]=g1();;)break", "{var [a]=g1()}", "{let a;a=g1()}",
+	"x=class{static x=g1()}", "x=class extends g1(){}", "{function f(a=g1()){}}", "l:{let [a]=g1();break l}", "switch(1){case 1:let [a]=g1()}", "try{let [a]=g1()}catch{}",
 }
 
 func jcCallSeq(b []byte) []byte {
